@@ -43,4 +43,12 @@ PROPS = {
         "modelled": EXTERNAL,
         "assumptions": ["arguments are live handles"],
     },
+    "C12": {
+        "suites": [("fclone", 400, 6000), ("forest", 300, 6000)],
+        "proved_scope": "TODO",
+        "not_proved": "TODO",
+        "modelled": EXTERNAL + ["handles are creation-order numbers; indextree slot reuse is below the model",
+                                "inherited_prefixes returns a hash map: its iteration order is a parameter of the model (the harness reports the order it observed, the driver checks it is a permutation)"],
+        "assumptions": ["the source is a live handle of a forest satisfying Forest.Inv"],
+    },
 }
